@@ -356,6 +356,26 @@ theorem sumVar_eq (m : ℕ) (P : ℕ → ℕ → α) (mu : α) :
   refine Finset.sum_congr rfl fun i _ => Finset.sum_congr rfl fun j _ => ?_
   rw [Nat.cast_add]; ring
 
+omit [LinearOrder α] [IsStrictOrderedRing α] in
+/-- the form `texture.py` computes: `np.dot(tk2, px_plus_y) − feats[5]**2` equals the textbook `Σ_k (k − f6)² p_{x+y}(k)` -/
+theorem sumVar_code_form (m : ℕ) (P : ℕ → ℕ → α) (h1 : ∑ i ∈ range m, ∑ j ∈ range m, P i j = 1) :
+    sumVarG (0 : α) Nat.cast m (pplusG 0 m P) (sumAvgG 0 Nat.cast m (pplusG 0 m P)) =
+      gsum 0 ((List.range (2 * m)).map fun k => ((k * k : ℕ) : α) * (pplusG (0 : α) m P).getD k 0) -
+        sumAvgG 0 Nat.cast m (pplusG 0 m P) * sumAvgG 0 Nat.cast m (pplusG 0 m P) := by
+  rw [sumVar_eq, pplus_moment m P (fun k => ((k * k : ℕ) : α)), sumAvg_eq, dsum_eq_prod, dsum_eq_prod, dsum_eq_prod]
+  rw [dsum_eq_prod] at h1
+  have hv := weighted_var (range m ×ˢ range m) (fun x : ℕ × ℕ => P x.1 x.2) (fun x : ℕ × ℕ => (x.1 : α) + (x.2 : α)) h1
+  have e1 : ∀ x : ℕ × ℕ, (((x.1 + x.2) * (x.1 + x.2) : ℕ) : α) * P x.1 x.2 = P x.1 x.2 * ((x.1 : α) + (x.2 : α)) ^ 2 := by
+    intro x; push_cast; ring
+  have e2 : ∀ x : ℕ × ℕ, ((x.1 : α) + (x.2 : α)) * P x.1 x.2 = P x.1 x.2 * ((x.1 : α) + (x.2 : α)) := by
+    intro x; ring
+  have e3 : ∀ (mu : α) (x : ℕ × ℕ), ((x.1 : α) + (x.2 : α) - mu) ^ 2 * P x.1 x.2 =
+      P x.1 x.2 * ((x.1 : α) + (x.2 : α) - mu) ^ 2 := by
+    intro mu x; ring
+  simp only [e1, e2, e3]
+  simp only [← sq]
+  exact hv.symm
+
 /-! ## the normalised matrix satisfies the hypotheses -/
 
 theorem matAt_nonneg (m : ℕ) (c : List ℕ) (i j : ℕ) : (0 : α) ≤ matAt 0 m (normMat (Nat.cast : ℕ → α) c) i j :=
